@@ -3,13 +3,13 @@
  "property": ["C01"],
  "entry": "h_crc32c_update",
  "enforce": ["CRC32C_Update"],
- "replace": [],
+ "replace": ["crc_ref_byte", "crc_ref_word"],
  "annotate": ["alg/crc32c.c"],
  "defines": ["VERIF_HALLOC", "CRC_MAXOBJ=64"],
  "thorough_defines": ["CRC_MAXOBJ=1024"],
  "expect_loops": ["CRC32C_Update"],
  "timeout": 600,
- "assumptions": ["tables initialised: the harness runs the real init() first (its contract is enforced in crc32c_init)",
+ "assumptions": ["tables initialised (ghost flag g_crc_tables_ok = CRC32C_Init was called); the table facts enter through the lemma contracts crc_ref_byte / crc_ref_word, enforced in crc32c_lemma_* with the tables computed by the real init()",
                  "buffer object size <= CRC_MAXOBJ bytes, every alignment 0..7 inside the object (symbolic object bound only; both loops are closed by loop contracts)"]
 }
 */
@@ -33,19 +33,13 @@ h_crc32c_update(void)
 	__CPROVER_assume(ctx != NULL);
 	const uint8_t * buf = obj + off;
 
-	init();			/* API precondition: CRC32C_Init ran (tables built) */
+	g_crc_tables_ok = 1;	/* API precondition: CRC32C_Init ran (tables built) */
 	g_crc_base = buf;
 	g_crc_n = 0;
 	g_crc = ctx->state;
-	uint32_t s0 = ctx->state;
 
 	CRC32C_Update(ctx, buf, len);
 
-	/* plain-C restatement for the shortest inputs */
-	__CPROVER_assert(len != 0 || ctx->state == s0, "empty update leaves the register alone");
-	__CPROVER_assert(len != 1 || ctx->state == spec_crc32c_byte(s0, buf[0]), "one byte == one reference step");
-	__CPROVER_assert(len != 5 || ctx->state == spec_crc32c_byte(spec_crc32c_byte(spec_crc32c_byte(spec_crc32c_byte(
-	    spec_crc32c_byte(s0, buf[0]), buf[1]), buf[2]), buf[3]), buf[4]), "five bytes == five reference steps in order");
 	VCOVER(len == 0);
 	VCOVER(len == 3 && off == 1);
 	VCOVER(len == 64 && off == 7);
